@@ -8,8 +8,8 @@
    make lock-ordered and atomic accesses race-free. *)
 From Coq Require Import List NArith ZArith Permutation.
 Import ListNotations.
-From V Require Import Export.LockIR Export.FirstTouch Proofs.LockIRProofs Proofs.LockAtomicProofs
-  Proofs.FirstTouchProofs.
+From V Require Import Export.LockIR Export.FirstTouch Export.SliceAlias Proofs.LockIRProofs
+  Proofs.LockAtomicProofs Proofs.FirstTouchProofs Proofs.SliceAliasProofs.
 Local Open Scope N_scope.
 
 (* the static lockset is a sound description of the locks dynamically held:
@@ -105,6 +105,79 @@ Example C11_emitter_and_handles_shapes :
   violations mtail_spec lineloop_snapshot_shape = [6].
 Proof. vm_compute. repeat split; reflexivity. Qed.
 
+(* round 5: walks over the store's metric lists, and slice headers.
+   (i) The read-lock half of isolation: in every reachable state of guarded
+   threads, while a thread holds a lock (in either mode) no other thread is
+   about to WRITE a field that lock guards - what a walker reads between
+   searchMu.RLock and RUnlock is one content of the store. *)
+Theorem C11_read_lock_excludes_writers :
+  forall spec (g0 : gstate),
+    (forall i, th_H (g0 i) = [] /\ guarded spec [] (th_rest (g0 i))) ->
+  forall g, reachable g0 g ->
+  forall i j x l m f r, i <> j -> In (x, l, m) (th_H (g i)) ->
+    th_rest (g j) = EvAcc x f KWrite :: r -> spec f = GLock l -> False.
+Proof. exact read_lock_excludes_writers. Qed.
+
+(* (ii) Store.Range as it is (Adds attempted during the walk take effect after
+   it, by (i)): for every store and every list of attempted Adds (new programs,
+   reloads of any program) the walk visits exactly the content the store held
+   when the walk began, and the store ends as if the Adds had come afterwards *)
+Theorem C11_locked_walk_sees_held_content :
+  forall s attempted, wf s ->
+  fst (range_locked s attempted) = content s /\
+  snd (range_locked s attempted) = adds attempted s.
+Proof. exact locked_walk_sound. Qed.
+
+(* (iii) a walker that copied the ELEMENTS (an array of its own) visits the
+   content the store held at the copy, under every schedule of Adds and visits:
+   Adds write only the store's current array or arrays they allocate *)
+Theorem C11_copy_walk_sees_held_content :
+  forall s sch, wf s -> fst (range_copy s sch) = firstn (visits sch) (content s).
+Proof. exact copy_walk_sound. Qed.
+
+(* (iv) whatever Adds take effect, every content the store holds has exactly one
+   metric per program and every program that was loaded at the beginning: an
+   export that shows a program twice, or lacks one loaded throughout, shows
+   something the store never held *)
+Theorem C11_store_keeps_one_metric_per_program :
+  forall sch s, wf s -> NoDup (progs (content s)) ->
+  forall c, In c (held s sch) ->
+    NoDup (progs c) /\ (forall p, In p (progs (content s)) -> In p (progs c)).
+Proof. exact held_one_per_program. Qed.
+
+(* (v) the seeded Store.Range (list HEADERS copied under the lock, walked after
+   the unlock) is refuted: three programs export one name (length 3, capacity 4);
+   the walker has visited program 1's metric when program 1 is reloaded (append
+   in place, shift down in place); it goes on to program 3's metric and the new
+   metric of program 1.  Program 1 twice, program 2 - loaded throughout - never:
+   no content the store held, in any order.  The element-copying and the locked
+   walk of the same schedule visit the content at their beginning. *)
+Theorem C11_header_walk_refuted :
+  wf wit_store /\ NoDup (progs (content wit_store)) /\
+  content wit_store = [(1, 1); (2, 1); (3, 1)] /\ cap_of wit_store = 4%nat /\
+  visits wit_sched = length (content wit_store) /\
+  let v := fst (range_hdr wit_store wit_sched) in
+  v = [(1, 1); (3, 1); (1, 2)] /\
+  ~ NoDup (progs v) /\
+  In 2 (progs (content wit_store)) /\ ~ In 2 (progs v) /\
+  (forall c, In c (held wit_store wit_sched) -> ~ Permutation (progs c) (progs v)) /\
+  fst (range_copy wit_store wit_sched) = content wit_store /\
+  fst (range_locked wit_store [(1, 2)]) = content wit_store.
+Proof. exact header_walk_refuted. Qed.
+
+(* non-vacuity: a store of five programs after reloads of the first and the
+   middle one is well formed, holds one metric per program, has spare capacity
+   (so the next reload shifts in place), and a walk interleaved with two reloads *)
+Example C11_walks_nontrivial :
+  let s := adds [(1, 1); (2, 1); (3, 1); (4, 1); (5, 1); (1, 2); (3, 2)] sempty in
+  wf s /\ content s = [(2, 1); (4, 1); (5, 1); (1, 2); (3, 2)] /\ cap_of s = 8%nat /\
+  fst (range_copy s [WVisit; WAdd (2, 2); WVisit; WVisit; WAdd (9, 1); WVisit; WVisit]) = content s /\
+  fst (range_hdr s [WVisit; WAdd (2, 2); WVisit; WVisit; WAdd (9, 1); WVisit; WVisit]) =
+    [(2, 1); (5, 1); (1, 2); (3, 2); (2, 2)].
+Proof.
+  cbv zeta. split; [apply adds_wf; exact sempty_wf|]. vm_compute. repeat split; reflexivity.
+Qed.
+
 (* indivisible atomic adds on one word: every interleaving ends at the sum *)
 Theorem C11_no_lost_increment :
   forall (ds sched : list Z) (v0 : Z), Permutation ds sched ->
@@ -151,3 +224,8 @@ Print Assumptions C11_split_getdatum_refuted.
 Print Assumptions C11_no_lost_increment.
 Print Assumptions C11_export_sees_real_value.
 Print Assumptions C11_gc_race_refuted.
+Print Assumptions C11_read_lock_excludes_writers.
+Print Assumptions C11_locked_walk_sees_held_content.
+Print Assumptions C11_copy_walk_sees_held_content.
+Print Assumptions C11_store_keeps_one_metric_per_program.
+Print Assumptions C11_header_walk_refuted.
